@@ -96,6 +96,7 @@ class Run:
         for sd in self.prog["stages"]:
             for td in sd["tasks"]:
                 reg.register(task_class_name(td["name"]), VerifTask(td["name"]))
+                reg.register_verifier("vverif", __import__("harness.vtask", fromlist=["vverif"]).vverif)
         b, c = core.shared_resilience()
         cfg = QueueProcessorConfig.from_handler_config(None)
         cfg.enable_lock_heartbeat = False
@@ -339,7 +340,7 @@ class Run:
 
     def send_signal(self, stage_ref: str, persistent: bool, name: str | None = None) -> None:
         self.signals_sent = getattr(self, "signals_sent", 0) + 1
-        name = name or str(self.signals_sent)      # the k-th signal sent is called "k" (identity of each signal)
+        name = name or ("x" if self.prog.get("sigSame") else str(self.signals_sent))   # the k-th signal sent is called "k"
         from stabilize.queue.messages import SignalStage
 
         sid = None
